@@ -77,7 +77,7 @@ fn oob(n: usize, which: u32) -> usize {
     }
 }
 
-pub const N_ENTRIES: u32 = 64;
+pub const N_ENTRIES: u32 = 66;
 
 /// One checked entry point.  `a`,`b` in 0..=6 are the two sizes; they are mismatched when a != b
 /// (for a == b the conformable call must succeed).  `w` selects the out-of-range variant.
@@ -557,6 +557,43 @@ fn entry(e: u32, a: usize, b: usize, w: u32, src: &mut Src) -> Result<&'static s
             }
             Ok("Polynomial index")
         }
+        64 => {
+            let n = 2 + a;
+            let nv = 1 + src.usize_below(3);
+            let mut m = Mesh1D::<f64, f64>::new(Vector::<f64>::linspace(0.0, 1.0, n), nv);
+            must_panic("Mesh1D::coord node out of range", || m.coord(oob(n, w)))?;
+            must_panic("Mesh1D index node out of range", || m[oob(n, w)].size())?;
+            must_panic("Mesh1D index_mut node out of range", || m[oob(n, w)][0] = 1.0)?;
+            must_panic("Mesh1D::trapezium variable out of range", || m.trapezium(oob(nv, w)))?;
+            must_return("Mesh1D::trapezium", || m.trapezium(nv - 1))?;
+            for i in 0..n {
+                if m.get_nodes_vars(i).vec != vec![0.0; nv] {
+                    return Err("Mesh1D: a rejected write modified the mesh".into());
+                }
+            }
+            Ok("Mesh1D coord/index/trapezium out of range")
+        }
+        65 => {
+            let (nx, ny) = (2 + a, 2 + b);
+            let nv = 1 + src.usize_below(3);
+            let mut m = Mesh2D::<f64>::new(Vector::<f64>::linspace(0.0, 1.0, nx), Vector::<f64>::linspace(0.0, 1.0, ny), nv);
+            must_panic("Mesh2D::coord x node out of range", || m.coord(oob(nx, w), 0))?;
+            must_panic("Mesh2D::coord y node out of range", || m.coord(0, oob(ny, w)))?;
+            must_panic("Mesh2D::cross_section_xnode out of range", || m.cross_section_xnode(oob(nx, w)).nnodes())?;
+            must_panic("Mesh2D::cross_section_ynode out of range", || m.cross_section_ynode(oob(ny, w)).nnodes())?;
+            must_panic("Mesh2D::trapezium variable out of range", || m.trapezium(oob(nv, w)))?;
+            must_panic("Mesh2D::square_trapezium variable out of range", || m.square_trapezium(oob(nv, w)))?;
+            must_panic("Mesh2D::apply variable out of range", || m.apply(&|x, y| x + y, oob(nv, w)))?;
+            must_return("Mesh2D::cross_section_xnode", || m.cross_section_xnode(nx - 1).nnodes())?;
+            for i in 0..nx {
+                for j in 0..ny {
+                    if m.get_nodes_vars(i, j).vec != vec![0.0; nv] {
+                        return Err("Mesh2D: a rejected apply() modified the mesh".into());
+                    }
+                }
+            }
+            Ok("Mesh2D coord/cross_section/trapezium/apply out of range")
+        }
         _ => Ok("(unused slot)"),
     }
 }
@@ -806,7 +843,7 @@ impl Prop for C20 {
              mismatched => the call must panic (catch_unwind) and a &mut receiver must equal its snapshot afterwards; a == b => the conformable call must return. The raw (i,j) operators of Matrix, Banded (inside the band) and Mesh2D are excluded. \
              family 1: random interleavings of mutations on a value and its clone (Vector, Matrix, Banded, Tridiagonal, Polynomial, Complex) against two independent models; family 2: by-reference operators and &self methods leave operands bitwise unchanged and \
              consuming forms return identical results. Non-trivial: every mismatched table case; clone histories with >= 3 mutations on each side; every by-reference sweep. distinct = distinct decoded choice sequence.",
-            64
+            N_ENTRIES
         )
     }
     fn assumptions(&self) -> Vec<String> {
@@ -820,11 +857,11 @@ impl Prop for C20 {
     }
     fn enum_prefixes(&self, _tier: Tier) -> Vec<Vec<u32>> {
         let mut v = Vec::new();
-        for e in 0..64u32 {
+        for e in 0..N_ENTRIES {
             for a in 0..7 {
                 for b in 0..7 {
                     for w in 0..3 {
-                        v.push(vec![raw_for(0, 3), raw_for(e, 64), raw_for(a, 7), raw_for(b, 7), raw_for(w, 3)]);
+                        v.push(vec![raw_for(0, 3), raw_for(e, N_ENTRIES), raw_for(a, 7), raw_for(b, 7), raw_for(w, 3)]);
                     }
                 }
             }
@@ -835,12 +872,12 @@ impl Prop for C20 {
         tier.pick(2, 12)
     }
     fn enum_note(&self, _tier: Tier) -> Option<String> {
-        Some("all 64 table entries x all size pairs (a,b) in 0..=6^2 x all 3 out-of-range variants = 9408 configurations".into())
+        Some(format!("all {} table entries x all size pairs (a,b) in 0..=6^2 x all 3 out-of-range variants = {} configurations", N_ENTRIES, N_ENTRIES * 147))
     }
     fn run(&self, case: &mut Case) -> Outcome {
         let r = match case.src.below(3) {
             0 => {
-                let e = case.src.below(64);
+                let e = case.src.below(N_ENTRIES);
                 let a = case.src.usize_below(7);
                 let b = case.src.usize_below(7);
                 let w = case.src.below(3);
